@@ -42,8 +42,11 @@ class PreprocessorHexagon:
             else:
                 is_vec_macro_file = False
             with open(mp) as f:
-                in_qemu_gen = False
-                in_user_only = False
+                # One entry for every open #ifdef/#ifndef: are the lines of its current branch kept?
+                # None of the guard symbols is defined (QEMU_GENERATE, CONFIG_USER_ONLY, header guards...).
+                # So an #ifdef block is dropped and an #ifndef block is kept, as the C preprocessor would do.
+                # Exception: The QEMU_GENERATE blocks of the vector macro file are included.
+                kept_branches = []
                 continued = False
                 for line in f.readlines():
                     if continued:
@@ -54,27 +57,24 @@ class PreprocessorHexagon:
                         continue
                     if line == "\n":
                         continue
-                    if re.match(r"#ifdef QEMU_GENERATE", line):
-                        in_qemu_gen = True
-                        continue
-                    if re.match(r"#ifdef CONFIG_USER_ONLY", line):
-                        in_user_only = True
-                        continue
-                    if re.match(r"#ifndef|#ifdef", line):
+                    guard = re.match(r"#(ifdef|ifndef)\s+(\w+)", line)
+                    if guard:
+                        if guard.group(2) == "QEMU_GENERATE" and is_vec_macro_file:
+                            kept_branches.append(None)  # All branches are kept.
+                        else:
+                            kept_branches.append(guard.group(1) == "ifndef")
                         continue
                     if re.match(r"#include", line):
                         continue
-                    if re.match(r"(#else)|(#endif)", line):
-                        if in_qemu_gen or in_user_only:
-                            in_user_only = False
-                            in_qemu_gen = False
+                    if re.match(r"#else", line):
+                        if kept_branches and kept_branches[-1] is not None:
+                            kept_branches[-1] = not kept_branches[-1]
                         continue
-                    if in_qemu_gen and is_vec_macro_file:
-                        # QEMU_GENERATE macros of the vector macro file are included.
-                        res.append(line.strip("\n"))
-                        continued = bool(re.search(r"\\\s*$", line))
+                    if re.match(r"#endif", line):
+                        if kept_branches:
+                            kept_branches.pop()
                         continue
-                    elif in_qemu_gen or in_user_only:
+                    if any(kept is False for kept in kept_branches):
                         continue
                     if re.match(r"(\s*//)|(/\*)|(\s*\*)", line):  # Ignore comments
                         continue
